@@ -34,7 +34,13 @@ pub fn css_function(input: Span) -> PResult<Value> {
 fn one_arg(input: Span) -> PResult<Value> {
     alt((
         map(delimited(tag("("), one_arg, tag(")")), |v| {
-            Value::Paren(v.into(), true)
+            // Parentheses around arithmetic are just grouping; they
+            // are kept as written only around other values.
+            let arithmetic = matches!(
+                v,
+                Value::BinOp(_) | Value::Numeric(..) | Value::Paren(_, false)
+            );
+            Value::Paren(v.into(), !arithmetic)
         }),
         sum_expression,
         map(sass_string, Value::Literal),
